@@ -50,6 +50,14 @@ pub mod verif_hooks {
         let p = crate::format::char_index_to_position(content, index);
         (p.line, p.character)
     }
+    pub fn api_tokens(
+        page_content: &str,
+        literal_start: u32,
+        tok_start: u32,
+        tok_end: u32,
+    ) -> Vec<(u32, u32, u32)> {
+        crate::semantic_tokens::verif_tokens(page_content, literal_start, tok_start, tok_end)
+    }
     pub fn api_range(content: &str, start: usize, len: usize) -> ((u32, u32), (u32, u32)) {
         let extraction = isograph_schema::IsoLiteralExtraction {
             const_export_name: None,
